@@ -343,6 +343,9 @@ func genPointD(t *rapid.T, gi *GroupInfo, label string, depth int) PVal {
 	if len(shortCoordMultipliers(gi)) > 0 {
 		classes = append(classes, "shortcoord")
 	}
+	if gi.Alt != nil && gi.HasBase {
+		classes = append(classes, "althandle")
+	}
 	cls := rapid.SampledFrom(classes).Draw(t, label+".class")
 	g := gi.G
 	pv := PVal{Class: cls}
@@ -355,6 +358,22 @@ func genPointD(t *rapid.T, gi *GroupInfo, label string, depth int) PVal {
 		k := ks[uniformInt(t, 0, len(ks)-1, label+".sck")]
 		pv.P = mulPoint(gi, g.Scalar().SetInt64(int64(k)), basePoint(gi))
 		pv.Desc, pv.Edge = fmt.Sprintf("%d*B[short coordinate]", k), true
+	case "althandle":
+		// a value made through ANOTHER handle of the same group (a second suite instance, a second call
+		// of suite.G1()): parties of one process exchange such objects, and accessors that build a new
+		// group per call make every other point one
+		s := genScalar(t, gi, label+".s")
+		var p kyber.Point
+		if gi.HasPick && rapid.Bool().Draw(t, label+".altpick") {
+			seed := genSeed(t, label+".seed")
+			p = gi.Alt.Point().Pick(xofStream(seed))
+			pv.Desc = fmt.Sprintf("alt.Pick(%x)", seed)
+		} else {
+			p = gi.Alt.Point().Mul(scalarFromBig(gi.Alt, s.V), nil)
+			pv.Desc = fmt.Sprintf("alt:(%s)*B", s)
+			pv.Edge = isEdgeClass(s.Class)
+		}
+		pv.P = markVT(gi, p)
 	case "null":
 		pv.P, pv.Desc, pv.Edge = nullPoint(gi), "O", true
 	case "base":
